@@ -11,7 +11,8 @@ namespace ratio
     expr enum_type::new_existential()
     { // the allowed values are the values of this enum and of all the enums it includes..
         const std::vector<item *> vals = get_all_instances();
-        assert(!vals.empty());
+        if (vals.empty()) // an enum without values, own or included..
+            throw inconsistency_exception();
         if (vals.size() == 1)
             return vals.front();
         else
